@@ -1836,3 +1836,263 @@ mod tests {
         handle.join().unwrap();
     }
 }
+
+/**
+Verification seams, only compiled with `--cfg emit_rs_emit_verif`.
+
+Public mirrors of the private filesystem traits, and constructors that run the real
+[`Worker`] and the real [`FileSet`] over an injected filesystem, clock and rng.
+*/
+#[cfg(emit_rs_emit_verif)]
+#[allow(missing_docs)]
+pub mod verif {
+    use super::*;
+
+    pub trait SimFilesystem: Send + Sync + 'static {
+        fn create_dir_all(&self, path: &Path) -> io::Result<()>;
+
+        fn sync_parent(&self, path: &Path) -> io::Result<()>;
+
+        fn read_dir_files(&self, path: &Path) -> io::Result<Vec<PathBuf>>;
+
+        fn remove_file(&self, path: &Path) -> io::Result<()>;
+
+        fn open_new(&self, path: &Path) -> io::Result<Box<dyn SimFile>>;
+
+        fn open_existing(&self, path: &Path) -> io::Result<Box<dyn SimFile>>;
+    }
+
+    pub trait SimFile: Send + Sync + 'static {
+        fn write(&mut self, buf: &[u8]) -> io::Result<usize>;
+
+        fn flush(&mut self) -> io::Result<()>;
+
+        fn len(&self) -> io::Result<usize>;
+
+        fn sync_all(&mut self) -> io::Result<()>;
+    }
+
+    struct FsAdapter<F>(F);
+
+    impl<F: SimFilesystem> Filesystem for FsAdapter<F> {
+        fn create_dir_all(&self, path: &Path) -> io::Result<()> {
+            self.0.create_dir_all(path)
+        }
+
+        fn sync_parent(&self, path: &Path) -> io::Result<()> {
+            self.0.sync_parent(path)
+        }
+
+        fn read_dir_files(&self, path: &Path) -> io::Result<Box<dyn Iterator<Item = PathBuf>>> {
+            Ok(Box::new(self.0.read_dir_files(path)?.into_iter()))
+        }
+
+        fn remove_file(&self, path: &Path) -> io::Result<()> {
+            self.0.remove_file(path)
+        }
+
+        fn open_new(&self, path: &Path) -> io::Result<Box<dyn File + Send + Sync>> {
+            Ok(Box::new(FileAdapter(self.0.open_new(path)?)))
+        }
+
+        fn open_existing(&self, path: &Path) -> io::Result<Box<dyn File + Send + Sync>> {
+            Ok(Box::new(FileAdapter(self.0.open_existing(path)?)))
+        }
+    }
+
+    struct FileAdapter(Box<dyn SimFile>);
+
+    impl Write for FileAdapter {
+        fn write(&mut self, buf: &[u8]) -> io::Result<usize> {
+            self.0.write(buf)
+        }
+
+        fn flush(&mut self) -> io::Result<()> {
+            self.0.flush()
+        }
+    }
+
+    impl File for FileAdapter {
+        fn len(&self) -> io::Result<usize> {
+            self.0.len()
+        }
+
+        fn sync_all(&mut self) -> io::Result<()> {
+            self.0.sync_all()
+        }
+    }
+
+    #[derive(Debug, Clone, Copy, PartialEq, Eq)]
+    pub enum Roll {
+        Day,
+        Hour,
+        Minute,
+    }
+
+    /**
+    The batch type the channel carries, built the way the channel builds it.
+    */
+    pub struct Batch(EventBatch);
+
+    impl Batch {
+        pub fn new() -> Self {
+            Batch(<EventBatch as emit_batcher::Channel>::new())
+        }
+
+        pub fn push(&mut self, event: Vec<u8>) {
+            emit_batcher::Channel::push(&mut self.0, event.into_boxed_slice())
+        }
+
+        pub fn clear(&mut self) {
+            emit_batcher::Channel::clear(&mut self.0)
+        }
+
+        pub fn len(&self) -> usize {
+            emit_batcher::Channel::len(&self.0)
+        }
+
+        /// The events a retry of this batch would still write, in order.
+        pub fn remaining(&self) -> Vec<Vec<u8>> {
+            self.0.bufs[self.0.index..]
+                .iter()
+                .map(|buf| buf.to_vec())
+                .collect()
+        }
+    }
+
+    /**
+    The (directory, prefix, extension) a file set template is split into.
+    */
+    pub fn split_template(file_set: &Path) -> Result<(String, String, String), Error> {
+        dir_prefix_ext(file_set)
+    }
+
+    /**
+    The real [`Worker`], driven directly.
+    */
+    pub struct DirectWorker {
+        worker: Worker,
+        metrics: Arc<InternalMetrics>,
+    }
+
+    impl DirectWorker {
+        pub fn new(
+            fs: impl SimFilesystem,
+            clock: impl Clock + Send + Sync + 'static,
+            rng: impl Rng + Send + Sync + 'static,
+            dir: String,
+            file_prefix: String,
+            file_ext: String,
+            roll_by: Roll,
+            reuse_files: bool,
+            max_files: usize,
+            max_file_size_bytes: usize,
+            separator: &'static [u8],
+        ) -> Self {
+            let metrics = Arc::new(InternalMetrics::default());
+
+            DirectWorker {
+                worker: Worker::new(
+                    metrics.clone(),
+                    FsAdapter(fs),
+                    clock,
+                    rng,
+                    dir,
+                    file_prefix,
+                    file_ext,
+                    match roll_by {
+                        Roll::Day => RollBy::Day,
+                        Roll::Hour => RollBy::Hour,
+                        Roll::Minute => RollBy::Minute,
+                    },
+                    reuse_files,
+                    max_files,
+                    max_file_size_bytes,
+                    separator,
+                ),
+                metrics,
+            }
+        }
+
+        /// `Ok(())`: written; `Err(Some(batch))`: retry `batch`; `Err(None)`: failed, not retryable.
+        pub fn on_batch(&mut self, batch: Batch) -> Result<(), Option<Batch>> {
+            self.worker
+                .on_batch(batch.0)
+                .map_err(|err| err.into_retryable().map(Batch))
+        }
+
+        pub fn metrics(&self) -> Vec<(String, usize)> {
+            self.metrics
+                .sample()
+                .map(|metric| {
+                    (
+                        metric.name().to_string(),
+                        metric.value().to_string().parse().unwrap_or(usize::MAX),
+                    )
+                })
+                .collect()
+        }
+    }
+
+    impl FileSetBuilder {
+        /**
+        [`FileSetBuilder::spawn`], over an injected filesystem, clock and rng.
+        */
+        pub fn verif_spawn_with(
+            self,
+            fs: impl SimFilesystem,
+            clock: impl Clock + Send + Sync + 'static,
+            rng: impl Rng + Send + Sync + 'static,
+        ) -> FileSet {
+            let metrics = Arc::new(InternalMetrics::default());
+
+            let inner = (|| {
+                let (dir, file_prefix, file_ext) =
+                    dir_prefix_ext(self.file_set).map_err(Error::new)?;
+
+                let mut worker = Worker::new(
+                    metrics.clone(),
+                    FsAdapter(fs),
+                    clock,
+                    rng,
+                    dir,
+                    file_prefix,
+                    file_ext,
+                    self.roll_by,
+                    self.reuse_files,
+                    self.max_files,
+                    self.max_file_size_bytes,
+                    self.separator,
+                );
+
+                let (sender, receiver) = emit_batcher::bounded(10_000);
+
+                let handle =
+                    emit_batcher::sync::spawn("emit_file_worker", receiver, move |batch| {
+                        worker.on_batch(batch)
+                    })
+                    .map_err(Error::new)?;
+
+                Ok::<_, Error>(FileSetInner {
+                    sender,
+                    metrics: metrics.clone(),
+                    writer: self.writer,
+                    separator: self.separator,
+                    _handle: handle,
+                })
+            })();
+
+            FileSet {
+                inner: inner.ok(),
+                metrics,
+            }
+        }
+    }
+
+    impl FileSet {
+        /// The channel behind this file set.
+        pub fn verif_sender(&self) -> Option<&emit_batcher::Sender<impl emit_batcher::Channel>> {
+            self.inner.as_ref().map(|inner| &inner.sender)
+        }
+    }
+}
